@@ -368,6 +368,8 @@ def run(chk):
     q5 = chk.rule('Q5', 'job-API and burst-API siblings (resubmit / submit_new / complete) run the same stage operations for each chain order', floor=20)
     q6 = chk.rule('Q6', 'get_next_burst hands out no more slots than are free: the requested count is used only in parameter guards and in '
                         'the clamp against the free count', floor=8)
+    q7 = chk.rule('Q7', 'every path that hands a job to the stage dispatch (submit_new_job / submit_new_burst_job) first sets its status to '
+                        'BEING_PROCESSED: a ring slot keeps the status of its previous use', floor=9)
     nvar = 0
     mgr = P.record('IMB_MGR')
     jobsz = P.record('IMB_JOB')['size']
@@ -385,6 +387,7 @@ def run(chk):
         vt = tu.split('__')[0]
         allowed = closure(P, tu, [roles[r_] for r_ in WRITER_ROLES if r_ in roles]) | \
             {f.name for f in P.funcs(tu) if re.match(r'init_mb_mgr_\w+_internal$', f.name)}
+        run_q7(q7, P, tu, vt)
         # ---- Q6
         if roles.get('get_next_burst') and P.has(tu, roles['get_next_burst']):
             run_q6(q6, P, tu, roles['get_next_burst'], vt)
@@ -579,6 +582,51 @@ def role_name(n):
 SIB = {'SUBMIT_JOB_CIPHER': 'CIPHER_SUBMIT', 'CALL_SUBMIT_CIPHER': 'CIPHER_SUBMIT', 'SUBMIT_JOB_HASH': 'HASH_SUBMIT',
        'CALL_SUBMIT_HASH': 'HASH_SUBMIT', 'FLUSH_JOB_CIPHER': 'CIPHER_FLUSH', 'CALL_FLUSH_CIPHER': 'CIPHER_FLUSH',
        'FLUSH_JOB_HASH': 'HASH_FLUSH', 'CALL_FLUSH_HASH': 'HASH_FLUSH', 'RESUBMIT_JOB': 'RESUBMIT', 'RESUBMIT_BURST_JOB': 'RESUBMIT'}
+
+
+
+def run_q7(q7, P, tu, vt):
+    """a job slot keeps the status of its previous use (the ring is not cleared; the self-test leaves COMPLETED behind): every path that
+    hands a job to the stage dispatch first stamps it BEING_PROCESSED, on the checked and the no-check entry alike"""
+    BP = P.enum('IMB_STATUS_BEING_PROCESSED')
+    for f in P.funcs(tu):
+        sites = [(b, i, ev) for b, i, ev in f.events(('call', 'assign', 'decl')) if any(
+            n.get('k') == 'call' and re.match(r'^submit_new(_burst)?_job$', n.get('fn') or '') for k in ('e', 'rhs', 'val') for n in cf.walk(ev.get(k) or {}))]
+        if not sites:
+            continue
+
+        def is_stamp(ev):
+            if ev['k'] != 'assign' or ev.get('op') not in (None, '='):
+                return False
+            l = cf.strip_casts(ev['lhs'])
+            return isinstance(l, dict) and l.get('k') == 'mem' and l.get('f') == 'status' and 'IMB_JOB' in (l.get('rec') or '') and \
+                cf.evalc(ev.get('rhs') or {}) == BP
+
+        def is_dispatch(ev):
+            return any(n.get('k') == 'call' and re.match(r'^submit_new(_burst)?_job$', n.get('fn') or '')
+                       for k in ('e', 'rhs', 'val') for n in cf.walk(ev.get(k) or {}))
+        bad = None
+        seen = set()
+        st = [f.entry]
+        while st and bad is None:
+            b = st.pop()
+            if b in seen or b is None:
+                continue
+            seen.add(b)
+            stamped = False
+            for ev in f.blocks[b]['ev']:
+                if is_stamp(ev):
+                    stamped = True
+                    break
+                if is_dispatch(ev):
+                    bad = ev
+                    break
+            if stamped or bad:
+                continue
+            st.extend(s_ for s_, _ in f.edges(b, None))
+        q7.check(bad is None, '%s:%s' % (vt, f.name), (bad or sites[0][2])['loc'],
+                 '%s: a path reaches %s without job->status = IMB_STATUS_BEING_PROCESSED: the slot keeps the status of its previous use and '
+                 'the job is handed back as completed without having been processed' % (f.name, 'the stage dispatch at %s' % (bad or {}).get('loc')))
 
 
 def stage_calls(P, tu, fname, order, depth=0, seen=None):
